@@ -3,23 +3,29 @@
 
   `Consistent pp` is the invariant: the object is a plain object (`PlainObj`: header, question, three
   lists of canonical record pieces, with the section starts and counts that follow from them, flag
-  "may contain pointers" cleared) and its question cache is empty or holds the question.
+  "may contain pointers" cleared), its question cache is empty or holds the question, and its EDNS
+  summary is the one its additional pieces determine (`EdnsOK`, Lemmas/EdnsPieces.lean).
   * `consistent_view`: a consistent object's bytes are accepted by the parser, which reports exactly
-    the section starts the object holds; the header counts are the numbers of records; a section start
-    is absent exactly when the section is empty; the bytes are pointer-free (so the cleared flag is
-    justified); reading the question through the cache gives what a cache-less read gives.
-  * every successful operation keeps the invariant: `after_decompression` (what `recompute`, and the
-    first `set_raw_name` / `delete`, make of any accepted packet), `insert_*`, `delete`, `set_ttl`,
-    `set_ip`, `set_name`, `header`; by induction, any sequence of them does.
-  * `renamed_cursor`: after `set_raw_name` the cursor still designates the record (same start, the new
-    name end, the new end) and `next` yields the record that followed, or the end of the section.
+    the section starts the object holds and exactly its EDNS summary (position and count of options,
+    extended rcode, version, flags, payload size); the header counts are the numbers of records; a
+    section start is absent exactly when the section is empty; the bytes are pointer-free (so the
+    cleared flag is justified); reading the question through the cache gives what a cache-less read
+    gives.
+  * every successful operation keeps the invariant: `after_decompression` / `recompute_consistent`
+    (what `recompute`, and the first `set_raw_name` / `delete`, make of any accepted packet),
+    `insert_*_consistent`, `delete_consistent` (deleting the OPT record clears the summary),
+    `set_ttl_consistent`, `set_ip_consistent`, `set_name_consistent`, `header_consistent`; by
+    chaining, any sequence of them does.  `rename_fresh`: a successful object-level rename leaves
+    exactly the view of a fresh parse (flag set, as after `parse`).
+  * `set_name_consistent` also states the cursor clause: after `set_raw_name` the cursor still
+    designates the record (same start, the new name end, the new end) and `next` yields the record
+    that followed, or the end of the section.
 
-  Partial: the EDNS summary fields (position and count of options, version, flags, extended rcode)
-  are carried through each operation unchanged or shifted (see the conclusions of C09's theorems and
-  `PlainObj.delete_at`) but their agreement with a fresh parse of the new bytes is not proved here;
-  nor are rename / recompute at object level, question insertion/deletion (KF1, KF4), OPT as the target
-  (KF5), clearing QR with answers present (KF3), setters on a still-compressed object (KF2): all of
-  these are covered by the script correspondence and the view oracle.
+  Excluded by hypothesis (known findings, by design): question insertion/deletion (KF1, KF4), the OPT
+  record as the target of set-name / set-TTL (KF5), clearing QR with answers present (KF3); setters
+  on a still-compressed object (KF2) and in-place decompression through an iterator are covered by
+  the script correspondence and the view oracle only.  The chaining over operation sequences is not
+  itself a Lean statement.
 -/
 import DnsModel.Theorems.C09
 import DnsModel.Theorems.C06
@@ -293,7 +299,7 @@ theorem take_mid {α} (xs : List α) (y : α) (zs : List α) : (xs ++ y :: zs).t
 
 /-- **set_raw_name** keeps the invariant; **the cursor still designates the record, and advancing it
 yields the record that followed** (or the end of the section) -/
-theorem set_name_consistent {pp : PP} (P : PlainObj pp) (sec : Section) (hs : sec.isRec = true) {ps1 ps2 : List Bytes} {rc : Bytes}
+theorem set_name_consistent {pp : PP} (P : PlainObj pp) (he : EdnsOK P) (sec : Section) (hs : sec.isRec = true) {ps1 ps2 : List Bytes} {rc : Bytes}
     (hsplit : P.lst sec = ps1 ++ rc :: ps2) (c : Cursor) {ne : Nat} {ob oa : Bool}
     (hr : RRAtPos pp.packet sec ⟨P.start sec + ps1.flatten.length, ne, P.start sec + ps1.flatten.length + rc.length⟩ ob oa)
     (hoff : c.offset = some (P.start sec + ps1.flatten.length))
@@ -308,10 +314,21 @@ theorem set_name_consistent {pp : PP} (P : PlainObj pp) (sec : Section) (hs : se
        | [] => nextIncludingOpt pp' c' = .ok none
        | nx :: _ => ∃ c2, nextIncludingOpt pp' c' = .ok (some c2) ∧
            c2.offset = some (P'.start sec + (ps1 ++ [rc']).flatten.length) ∧ recBytes pp' c2 = nx) := by
-  obtain ⟨owner, f8, rd, pp', P', hrc, hrun, f1, f2, f3, f4, f5, hcache, _⟩ :=
+  obtain ⟨owner, f8, rd, pp', P', hrc, hrun, f1, f2, f3, f4, f5, hcache, k1, k2, k3, k4, k5, k6, hgo, hf8, hlt, ht⟩ :=
     P.set_name sec hs hsplit c hr hoff hnext hne hsec h41 owner' hgo' hsize
   have hst : P'.start sec = P.start sec := P.start_congr P' sec f3 f2
-  refine ⟨pp', _, P', _, hrun, ⟨P', Or.inl hcache⟩, f1, by simp [Cursor.movedTo, hoff], by simp [Cursor.movedTo, hst], ?_⟩
+  have hedns : EdnsOK P' := by
+    have hn : isOptPiece rc = false := by
+      rw [hrc]
+      have := noopt_of_type owner f8 (put16 rd.length ++ rd) hgo hf8 ht
+      simpa using this
+    have hn' : isOptPiece ((encLabels owner' ++ [0]) ++ f8 ++ put16 rd.length ++ rd) = false := by
+      have := noopt_of_type owner' f8 (put16 rd.length ++ rd) hgo' hf8 ht
+      simpa using this
+    refine ednsOK_replace P P' he sec hs hsplit hn hn' f1 f2 f3 ?_
+    apply ednsInfo_moved pp pp' _ _ k1 k2 k3 k4 k5
+    rw [k6, hoff, map_if_optLt]
+  refine ⟨pp', _, P', _, hrun, ⟨P', Or.inl hcache, hedns⟩, f1, by simp [Cursor.movedTo, hoff], by simp [Cursor.movedTo, hst], ?_⟩
   have hcur : CurAt P' sec (ps1.length + 1)
       (c.movedTo (P.start sec + ps1.flatten.length) (P.start sec + ps1.flatten.length + labSum owner' + 1)
         (P.start sec + ps1.flatten.length + ((encLabels owner' ++ [0]) ++ f8 ++ put16 rd.length ++ rd).length)) := by
@@ -343,11 +360,12 @@ theorem set_name_consistent {pp : PP} (P : PlainObj pp) (sec : Section) (hs : se
       exact hw
 
 /-- **header setters** keep the invariant while the response bit allows the records present -/
-theorem header_consistent {pp : PP} (P : PlainObj pp) (hc : pp.cached = none ∨ pp.cached = some (questionOf P)) (p' : Bytes)
+theorem header_consistent {pp : PP} (P : PlainObj pp) (hc : pp.cached = none ∨ pp.cached = some (questionOf P)) (he : EdnsOK P) (p' : Bytes)
     (hs : C12.sameExcept pp.packet p' 0 4) (hqr : get16 p' 2 / 32768 % 2 = 0 → P.A = [] ∧ P.N = []) :
     Consistent { pp with packet := p' } := by
-  obtain ⟨P', _, _, _, hq, hq4, _⟩ := P.header_set p' hs hqr
-  exact consistent_of_same_question P P' hq hq4 (Or.inl rfl) hc
+  obtain ⟨P', hA, hN, hR, hq, hq4, _⟩ := P.header_set p' hs hqr
+  have hst : P'.start .additional = P.start .additional := by simp only [start_additional, hq, hA, hN]
+  exact consistent_of_same_question P P' hq hq4 (Or.inl rfl) hc (ednsOK_same P P' he hR hst rfl)
 
 /-- **rename at object level**: when it succeeds, the object is exactly what a fresh parse of the new
 bytes gives (section starts, EDNS position, count, version, flags, extended rcode; empty cache; the
@@ -380,12 +398,13 @@ theorem rename_fresh (pp pp' : PP) (target source : Bytes) (sfx : Bool)
         exact ⟨v, ⟨hp, rfl, rfl, c1.symm, c2.symm, c3.symm, c4.symm, rfl, rfl, rfl, rfl⟩, rfl, rfl⟩
 
 /-- **recompute** on an object that still has its parse-time flag: the result is consistent -/
-theorem recompute_consistent {pp : PP} {p : Bytes} {v : View} (F : Fresh pp p v) :
+theorem recompute_consistent {pp : PP} {p : Bytes} {v : View} (F : Fresh pp p v) (hmp : pp.maxPayload = v.maxPayload) :
     ∃ pp', pp.recompute = .ok (pp', none) ∧ Consistent pp' := by
   obtain ⟨L, o, _⟩ := C05.decompress_ok F.hp
   obtain ⟨v2, h2, _, hrec⟩ := recompute_fresh' F o
   obtain ⟨P, _⟩ := plainObj_of_output F.hp o h2 pp
-  exact ⟨_, hrec, P, Or.inl rfl⟩
+  obtain ⟨e1, e2, e3, e4, e5⟩ := edns_fields_carried F hmp o h2
+  exact ⟨_, hrec, P, Or.inl rfl, ednsOK_rebased P h2 e1 e2 e3 e4 e5⟩
 
 /-- recompute on an object whose flag is cleared changes nothing -/
 theorem recompute_plain (pp : PP) (h : pp.maybeCompressed = false) : pp.recompute = .ok (pp, none) := by
